@@ -68,7 +68,7 @@ type Obj struct {
 	Epoch   int        // kBuffer: number of modifications so far (views taken earlier are stale)
 	Spare   *Term      // kBuffer: spare capacity behind the content (symbolic, >= 0), valid for SpareEp
 	SpareEp int
-	eShared bool // E is shared with another state's copy of this object: ownE() before writing an element
+	eShared bool    // E is shared with another state's copy of this object: ownE() before writing an element
 	Pool    []Value // sync.Pool: the values Put back so far (most recent last); never mutated in place
 }
 
